@@ -75,6 +75,14 @@ def sanAttrs (cfg : Cfg) : AttrList → Except Err AttrList
     let rest ← sanAttrs cfg as
     pure (match r with | some x => x :: rest | none => rest)
 
+def optHasGt : Option Str → Bool
+  | some x => List.contains x '>'
+  | none => false
+
+/-- a `>` in the name, the public or the system identifier of a DOCTYPE event: an HTML parser ends
+    the declaration there, inside quotes or not, and reads what follows as markup -/
+def dtHasGt (n : Str) (p s : Option Str) : Bool := List.contains n '>' || optHasGt p || optHasGt s
+
 /-- the filter's local state: `waiting_for`, `depth` -/
 structure St where
   waiting : Option QName
@@ -105,6 +113,10 @@ def step (cfg : Cfg) (st : St) : Event → Except Err (St × Stream)
     -- `kind is PI and ('>' in data[0] or '>' in data[1])`: dropped
     if List.contains target '>' || List.contains data '>' then pure (st, [])
     else pure (st, if st.waiting.isNone then [.pi target data] else [])
+  | .doctype n p s =>
+    -- `kind is DOCTYPE and any(part and '>' in part for part in data)`: dropped
+    if dtHasGt n p s then pure (st, [])
+    else pure (st, if st.waiting.isNone then [.doctype n p s] else [])
   -- `kind is START_CDATA or kind is END_CDATA`: the markers are not passed on (the text between
   -- them is then escaped by every serializer like any other text)
   | .startCdata => pure (st, [])
